@@ -7,22 +7,10 @@
 //! The process writes one JSON report; the python driver merges shards,
 //! decides the verdict and writes the evidence file.
 
-mod c13;
-mod cfg;
-mod gen;
-mod mem;
-mod meta;
-mod oracle;
-mod packed;
-mod report;
-mod sem;
-mod stream;
-mod util;
-mod walk;
-mod work;
 
-use report::{Ctx, Report, Tier};
-use util::J;
+use acmon::report::{Ctx, Report, Tier};
+use acmon::util::J;
+use acmon::{c13, mem, meta, packed, sem, stream, threads, walk, work};
 
 fn usage() -> ! {
     eprintln!(
@@ -47,6 +35,7 @@ fn run_monitor(prop: &str, ctx: &Ctx, rep: &mut Report) -> Result<(), String> {
         "C05" => meta::run_c05(ctx, rep),
         "C19" => work::run_c19(ctx, rep),
         "C15" => mem::run(ctx, rep),
+        "C17" => threads::run(ctx, rep),
         "C20" => work::run_c20(ctx, rep),
         "C10" => meta::run_c10(ctx, rep),
         "C11" => meta::run_c11(ctx, rep),
@@ -67,6 +56,7 @@ fn replay_monitor(prop: &str, case: &J, rep: &mut Report) -> Result<(), String> 
         "C05" => meta::replay_c05(case, rep),
         "C19" => work::replay_c19(case, rep),
         "C15" => mem::replay(case, rep),
+        "C17" => threads::replay(case, rep),
         "C20" => work::replay_c20(case, rep),
         "C10" => meta::replay_c10(case, rep),
         "C11" => meta::replay_c11(case, rep),
